@@ -44,9 +44,17 @@ Inductive re :=
 | RCat (a b : re)
 | RAlt (a b : re)
 | RStar (a : re)                 (* a* and a*? *)
-| RRep (a : re) (n : nat) (m : option nat)   (* a{n,m}; None = unbounded *)
 | RStart | REnd                  (* ^ $ : start / end of the scanned data *)
 | RWordB | RNonWordB.            (* \b \B *)
+
+(* a{n,m} and a{n,} are abbreviations *)
+Fixpoint rpow (a : re) (n : nat) : re := match n with O => REmpty | S k => RCat a (rpow a k) end.
+Fixpoint ropt_pow (a : re) (n : nat) : re := match n with O => REmpty | S k => RAlt REmpty (RCat a (ropt_pow a k)) end.
+Definition rrep (a : re) (n : nat) (m : option nat) : re :=
+  match m with
+  | None => RCat (rpow a n) (RStar a)
+  | Some mm => RCat (rpow a n) (ropt_pow a (mm - n))
+  end.
 
 Definition byte_at (buf : bytes) (i : nat) : option N := nth_error buf i.
 
@@ -64,13 +72,6 @@ Inductive M (buf : bytes) : re -> nat -> nat -> Prop :=
 | M_altr a b i j : M buf b i j -> M buf (RAlt a b) i j
 | M_star0 a i : M buf (RStar a) i i
 | M_star1 a i k j : M buf a i k -> M buf (RStar a) k j -> M buf (RStar a) i j
-| M_rep0 a m i : M buf (RRep a 0 m) i i
-| M_rep_req a n m i k j : M buf a i k -> M buf (RRep a n (option_map pred m)) k j ->
-                          (match m with Some mm => (0 < mm)%nat | None => True end) ->
-                          M buf (RRep a (S n) m) i j
-| M_rep_opt a m i k j : M buf a i k -> M buf (RRep a 0 (option_map pred m)) k j ->
-                        (match m with Some mm => (0 < mm)%nat | None => True end) ->
-                        M buf (RRep a 0 m) i j
 | M_start : M buf RStart 0 0
 | M_end : M buf REnd (length buf) (length buf)
 | M_wb i : word_boundary buf i = true -> (i <= length buf)%nat -> M buf RWordB i i
@@ -89,12 +90,6 @@ Fixpoint closure (step : nat -> list nat) (fuel : nat) (acc : list nat) : list n
            if Nat.eqb (length acc') (length acc) then acc else closure step f acc'
   end.
 
-(* exactly n iterations, then up to [extra] more (None = any number) *)
-Fixpoint iter_exact (step : nat -> list nat) (n : nat) (from : list nat) : list nat :=
-  match n with O => from | S k => iter_exact step k (add_all (flat_map step from) []) end.
-Fixpoint iter_upto (step : nat -> list nat) (m : nat) (acc : list nat) : list nat :=
-  match m with O => acc | S k => iter_upto step k (add_all (flat_map step acc) acc) end.
-
 Fixpoint ends (buf : bytes) (r : re) (i : nat) : list nat :=
   match r with
   | REmpty => [i]
@@ -102,12 +97,6 @@ Fixpoint ends (buf : bytes) (r : re) (i : nat) : list nat :=
   | RCat a b => add_all (flat_map (ends buf b) (ends buf a i)) []
   | RAlt a b => add_all (ends buf b i) (add_all (ends buf a i) [])
   | RStar a => closure (ends buf a) (S (length buf)) [i]
-  | RRep a n m =>
-      let base := iter_exact (ends buf a) n [i] in
-      match m with
-      | None => closure (ends buf a) (S (length buf)) base
-      | Some mm => iter_upto (ends buf a) (mm - n) base
-      end
   | RStart => if Nat.eqb i 0 then [i] else []
   | REnd => if Nat.eqb i (length buf) then [i] else []
   | RWordB => if word_boundary buf i && (i <=? length buf)%nat then [i] else []
